@@ -41,15 +41,52 @@ def absent_mask(op):
     return tuple(t == ABSENT for t in op.split(" ")[4].split(","))
 
 
-def rec_op(key, flow_type, corr_tok, start, end, stats, reason=2, tcp="ESTABLISHED"):
+def rec_op(key, flow_type, corr_tok, start, end, stats, reason=2, tcp="ESTABLISHED", http=None):
+    """http = what the record's httpVals element holds (sessions created with `agg new ... http` only: there every
+    record carries the element)"""
     return "agg rec %d %d %s %d %d %d %s %s" % (key, flow_type, corr_tok, start, end, reason, tcp.encode().hex() or "-",
-                                                ",".join(str(x) for x in stats))
+                                                ",".join(str(x) for x in stats)) + \
+        ("" if http is None else " h=" + (http.encode().hex() or "-"))
+
+
+# the 16-byte (IPv4-mapped) form of an IPv4 address, as hex: what net.IPv4zero / net.ParseIP("10.96.0.1") are
+V4_PREFIX = "00" * 10 + "ffff"
+
+
+def ip16(hex4):
+    return V4_PREFIX + hex4
+
+
+# the statistics elements and the other configured elements a record's template may lack (`omit=<names>`): the
+# aggregation refuses a record for a held flow that lacks one of them
+STATS_NAMES = ["packetTotalCount", "packetDeltaCount", "octetTotalCount", "octetDeltaCount", "reversePacketTotalCount",
+               "reversePacketDeltaCount", "reverseOctetTotalCount", "reverseOctetDeltaCount"]
+REFUSED_WITHOUT = STATS_NAMES + ["tcpState", "flowEndReason", "flowEndSeconds"]
+
+
+def omit(op, names):
+    """the `agg rec` op, its record built from a template that lacks the named elements"""
+    assert op.startswith("agg rec ")
+    return op + " omit=" + ",".join(names)
+
+
+def with_cfg(cases):
+    """every second history creates its aggregation process from the SAME configuration written in another order
+    (`agg new <a> <i> cfg<n>`, see eng_agg.go): the order of the configuration lists carries no meaning, the model
+    ignores the token. Draws no random numbers. n odd = the two per-node end-time elements swapped."""
+    for i, c in enumerate(cases):
+        if i % 2 == 1 and c.ops and c.ops[0].startswith("agg new ") and " cfg" not in c.ops[0]:
+            f = c.ops[0].split(" ")
+            f.insert(4, "cfg%d" % (i // 2))
+            c.ops[0] = " ".join(f)
+    return cases
 
 
 def msg_op(rec_ops, perm=None):
     """`agg msg`: the records of the given `agg rec` ops (without p<n>; keys of one address family) in ONE data set
     that travels exporter encoding -> collector decoding -> aggregation; perm = element order of the whole message"""
-    assert rec_ops and all(o.startswith("agg rec ") and len(o.split()) == 10 for o in rec_ops)
+    assert rec_ops and all(o.startswith("agg rec ") and len(o.split()) in (10, 11) for o in rec_ops)
+    assert all(o.split()[10].startswith("h=") for o in rec_ops if len(o.split()) == 11)
     assert len({absent_mask(o) for o in rec_ops}) == 1, "the records of one data set share a template"
     return "agg msg " + " + ".join(o[len("agg rec "):] for o in rec_ops) + (" p%d" % perm if perm is not None else "")
 
